@@ -516,4 +516,72 @@ def mapOr {α β : Type} (o : Option α) (d : β) (f : α → β) : β := match 
 /-- `x?` on a `Result` whose `Err` makes the function return `Err` (`none`) -/
 def bindO {α β : Type} (o : Option α) (k : α → Option β) : Option β := match o with | some a => k a | none => none
 
+/-! ### macro steps with program-defined yield points
+
+A macro step of a thread = internal steps, one protocol step, then internal steps UP TO THE FIRST YIELD POINT of the
+thread.  The yield points are defined on the program text alone (the head of the continuation):
+main thread: before `recv refill`, before the source is read (the note + `match src.read_samples`, i.e. right after the
+buffer lock was taken), right after the `Fill` send (`callEnd; ret fillOk`), before the send of `Some(bufid)` / `None` on
+`encode`, before the send of the md5 stop token, before a `join`, and at the end of the function;
+worker: at the head of its `while let`, before `lock_buffer`, before `enqueue_refill`, before the push hook, at the end;
+hasher: before its `recv`, at the end. -/
+
+def yieldMain : List Stmt → Bool
+  | [] => true
+  | .act (.recv .refill) :: _ => true
+  | .act (.note _) :: .matchRead _ _ :: _ => true
+  | .callEnd _ :: .ret .fillOk :: _ => true
+  | .act (.send .encode .someBufid) :: _ => true
+  | .act (.send .encode .noneTok) :: _ => true
+  | .act (.send .md5 .emptyVec) :: _ => true
+  | .act .joinHasher :: _ => true
+  | .act .joinWorker :: _ => true
+  | _ => false
+
+def yieldWorker : List Stmt → Bool
+  | [] => true
+  | .whileRecv _ _ _ :: _ => true
+  | .call _ [.act (.lock .buf)] :: _ => true
+  | .call _ [.act (.send .refill .bufid)] :: _ => true
+  | .act (.schedIf _ _ _ _ _) :: _ => true
+  | _ => false
+
+def yieldHasher : List Stmt → Bool
+  | [] => true
+  | .act (.recv .md5) :: _ => true
+  | _ => false
+
+def PState.yields (g : PState) : Tid → Bool
+  | .main => yieldMain g.main.cont
+  | .worker w => match g.workers[w]? with | some t => yieldWorker t.cont | none => false
+  | .hasher => yieldHasher g.hasher.cont
+
+/-- exactly `n` internal steps of `tid`, none of them starting at a yield point -/
+def settle (env : Env) (tid : Tid) : Nat → PState → Option PState
+  | 0, g => some g
+  | n + 1, g =>
+    if g.yields tid then none
+    else
+      match step env g tid with
+      | some (.tau, g') => settle env tid n g'
+      | _ => none
+
+/-- Macro step ending at the thread's FIRST yield point after the protocol step. -/
+def macroStepC (env : Env) (tid : Tid) (a b : Nat) (g : PState) : Option (Ev × PState) :=
+  match runTau env tid a g with
+  | some g1 =>
+    match visStep env tid g1 with
+    | some (e, g2) =>
+      match settle env tid b g2 with
+      | some g3 => if g3.yields tid then some (e, g3) else none
+      | none => none
+    | none => none
+  | none => none
+
+/-- A run of the programs: any thread, any protocol step it can reach, then on to its next yield point. -/
+inductive ProgRun (env : Env) : PState → List Ev → PState → Prop
+  | nil (g : PState) : ProgRun env g [] g
+  | cons {g g1 g' : PState} {tid : Tid} {a b : Nat} {e : Ev} {evs : List Ev} :
+      macroStepC env tid a b g = some (e, g1) → ProgRun env g1 evs g' → ProgRun env g (e :: evs) g'
+
 end FlacVerif.ParProg
